@@ -197,3 +197,38 @@ func vpH_C10_T_late_round_sees_preemptor() {
 	vpAuditLog(s.st, "a", true, 5, false)
 	_ = s.e.Stop()
 }
+
+// vpH_C10_T_preempted_during_verification: connection monitoring on; after a disconnect/reconnect blip the
+// leader verifies its record (a read, then the token validation's read); a priority-9 instance legitimately
+// preempts it right after one of those reads (explorer's choice which). Whatever the verification concludes,
+// nothing the old leader does afterwards overwrites the preemptor's record.
+func vpH_C10_T_preempted_during_verification() {
+	H := time.Second
+	s := vpConnInstance(H, 0, nil)
+	s.kv.opLeft = 40
+	s.st.noEvents = true
+	after := 1 + vpChoose("preempt-after-read", 3)
+	reads := 0
+	s.kv.afterApply = func(op string) {
+		if op == "get" {
+			reads++
+			if reads == after && s.st.live() && s.st.writer == "a" {
+				s.st.write("env:x", "update", vpRecMk("x", "tok-x", 9), false, s.st.lastSeq)
+				vpEvent("x-preempted")
+			}
+		}
+	}
+	time.Sleep(200 * time.Millisecond)
+	s.notify(0)
+	time.Sleep(200 * time.Millisecond)
+	s.notify(1)
+	time.Sleep(2*H + H/2)
+	vpQuiesce()
+	vpCover("C10.preempted-during-verification")
+	if s.st.writer != "a" || !s.st.live() {
+		vpAssert("C10.stays-with-highest", s.st.live() && s.st.writer == "env:x")
+		vpAssert("C10.preempted-steps-down", !s.e.IsLeader())
+	}
+	vpAuditLog(s.st, "a", false, 0, false)
+	_ = s.e.Stop()
+}
